@@ -31,6 +31,92 @@ type layCase struct {
 	loads []*ssa.IndexAddr // the byte loads
 	via   []*ssa.Call      // calls through which the case was reached (outermost first)
 	other string           // not recognised: reason
+	// decoding through encoding/binary (order.Uint16(data)): the library composes the bytes (m is its documented
+	// layout) and indexes data[width-1] itself, so len(data) >= needLen must hold at the call; orderOv is the byte
+	// order that the guards of the place where the order value was chosen imply
+	needLen int64
+	orderOv string
+}
+
+// stdDecodeCall: c is X.Uint16/32/64(data) of encoding/binary: the width, the data, the receiver (interface calls) or
+// the fixed order (calls on binary.LittleEndian / binary.BigEndian themselves).
+func stdDecodeCall(c *ssa.Call) (width int64, data, recv ssa.Value, fixed string, ok bool) {
+	widths := map[string]int64{"Uint16": 2, "Uint32": 4, "Uint64": 8}
+	if c.Call.IsInvoke() {
+		n, isN := c.Call.Value.Type().(*types.Named)
+		if !isN || n.Obj().Pkg() == nil || n.Obj().Pkg().Path() != "encoding/binary" || n.Obj().Name() != "ByteOrder" || len(c.Call.Args) != 1 {
+			return
+		}
+		w, has := widths[c.Call.Method.Name()]
+		return w, c.Call.Args[0], c.Call.Value, "", has
+	}
+	f := c.Call.StaticCallee()
+	if f == nil || f.Pkg == nil || f.Pkg.Pkg.Path() != "encoding/binary" || f.Signature.Recv() == nil || len(c.Call.Args) != 2 {
+		return
+	}
+	w, has := widths[f.Name()]
+	switch recvName(f) {
+	case "littleEndian":
+		fixed = "LittleEndian"
+	case "bigEndian":
+		fixed = "BigEndian"
+	default:
+		return
+	}
+	return w, c.Call.Args[1], nil, fixed, has
+}
+
+func stdLayout(order string, width int64) map[int64]int64 {
+	m := map[int64]int64{}
+	for i := int64(0); i < width; i++ {
+		if order == "LittleEndian" {
+			m[i] = 8 * i
+		} else {
+			m[i] = 8 * (width - 1 - i)
+		}
+	}
+	return m
+}
+
+// orderLeaf: one way a binary.ByteOrder value is chosen: which of the two library orders, and the place whose guards
+// decide that choice.
+type orderLeaf struct {
+	order string
+	blk   *ssa.BasicBlock
+	edge  *ssa.BasicBlock
+	bad   string
+}
+
+func orderLeaves(v ssa.Value, blk, edge *ssa.BasicBlock, depth int) []orderLeaf {
+	if mi, ok := v.(*ssa.MakeInterface); ok {
+		v = mi.X
+	}
+	if u, ok := v.(*ssa.UnOp); ok && u.Op == token.MUL {
+		if g, ok := u.X.(*ssa.Global); ok && g.Pkg != nil && g.Pkg.Pkg.Path() == "encoding/binary" && (g.Name() == "LittleEndian" || g.Name() == "BigEndian") {
+			return []orderLeaf{{order: g.Name(), blk: blk, edge: edge}}
+		}
+	}
+	if depth < 3 {
+		if ph, ok := v.(*ssa.Phi); ok {
+			var out []orderLeaf
+			for i, e := range ph.Edges {
+				out = append(out, orderLeaves(e, ph.Block().Preds[i], ph.Block(), depth+1)...)
+			}
+			return out
+		}
+		if c, ok := v.(*ssa.Call); ok {
+			if h := c.Call.StaticCallee(); h != nil && fnPkg(h) != nil && core.InModule(fnPkg(h)) && len(h.Blocks) > 0 && h.Signature.Results().Len() == 1 {
+				var out []orderLeaf
+				for _, b := range h.Blocks {
+					if ret, isRet := lastInstr(b).(*ssa.Return); isRet {
+						out = append(out, orderLeaves(ret.Results[0], b, nil, depth+1)...)
+					}
+				}
+				return out
+			}
+		}
+	}
+	return []orderLeaf{{bad: "the byte order handed to encoding/binary is not one of binary.LittleEndian / binary.BigEndian chosen under a test of the ByteOrder field"}}
 }
 
 // orTermsV: like orTerms, also collects the slice value and the IndexAddr instructions.
@@ -128,6 +214,36 @@ func valueCases(r *core.Run, fn *ssa.Function, v ssa.Value, blk, edge *ssa.Basic
 			}
 		}
 	}
+	if c, ok := sv.(*ssa.Call); ok {
+		if width, ddata, recv, fixed, isStd := stdDecodeCall(c); isStd {
+			if fixed != "" {
+				// binary.LittleEndian.Uint16(data) under whatever guards hold here
+				cs := base
+				cs.m, cs.data, cs.needLen = stdLayout(fixed, width), ddata, width
+				return []layCase{cs}
+			}
+			var out []layCase
+			for _, lf := range orderLeaves(recv, blk, edge, 0) {
+				cs := base
+				if lf.bad != "" {
+					cs.other = lf.bad
+					out = append(out, cs)
+					continue
+				}
+				at := guardsAt(lf.blk)
+				if lf.edge != nil {
+					at = append(at, edgeAtoms(lf.blk, lf.edge, 0)...)
+				}
+				cs.orderOv = orderOfAtoms(at)
+				if cs.orderOv == "" {
+					cs.orderOv = "BigEndian" // the code's default when ByteOrder is not LittleEndian
+				}
+				cs.m, cs.data, cs.needLen = stdLayout(lf.order, width), ddata, width
+				out = append(out, cs)
+			}
+			return out
+		}
+	}
 	m := map[int64]int64{}
 	var data ssa.Value
 	var loads []*ssa.IndexAddr
@@ -198,6 +314,9 @@ func orderOfAtoms(atoms []condAtom) string {
 
 // order: the byte order that holds for the case: in its own frame, else at the calls that lead to it (innermost first).
 func (c layCase) order() string {
+	if c.orderOv != "" {
+		return c.orderOv
+	}
 	if o := orderOfAtoms(c.atoms()); o != "" {
 		return o
 	}
@@ -493,6 +612,14 @@ func layoutReaders(r *core.Run) int {
 				if !proved {
 					okB = false
 					why = fmt.Sprintf("data[%s] is read under %v, which does not imply len(data) > %s: a back end that returns fewer bytes (an empty non-nil slice together with io.EOF) makes this index out of range", linOf(ia.Index), factStrings(fs), linOf(ia.Index))
+				}
+			}
+			if c.needLen > 0 {
+				// the library indexes data[needLen-1] before anything else
+				need := linAtom("len("+canon(data)+")").add(linConst(c.needLen), -1)
+				if fs := c.facts(); !entails(fs, need) {
+					okB = false
+					why = fmt.Sprintf("encoding/binary reads %d bytes of data under %v, which does not imply len(data) >= %d: a short read makes the library panic (index out of range)", c.needLen, factStrings(fs), c.needLen)
 				}
 			}
 			r.Check(okB, tag+" bounds", c.pos, "", why)
